@@ -443,6 +443,19 @@ def _check_computer(ob: _Ob, comp: Computer, is_sam: bool) -> None:
             def _q(n):
                 return isinstance(n, tuple) and (n[0] == "?" or any(_q(x) for x in n[1:] if isinstance(x, tuple)))
             if _q(w.value):
+                def _inits(n):
+                    if isinstance(n, tuple):
+                        if n and n[0] == "INIT":
+                            yield n
+                        for x in n[1:]:
+                            yield from _inits(x)
+                for init in _inits(w.value):
+                    # an extra candidate is wrong whatever the part that was not understood turns out to be
+                    ob.check("B6s" if w.col == "LB" else "B7s", {"C01", "C02", "C03", "C04", "C07", "C08"}, False, where, fn,
+                             f"the {'lower' if w.col == 'LB' else 'upper'} bound is the reduction over its candidates only (found an extra candidate initial={init[3]})",
+                             "lb-reduction-initial" if w.col == "LB" else "ub-reduction-initial",
+                             "an `initial` value is an extra candidate that no split / superset justifies (v(N) as a cap on every upper bound is wrong as soon as a proper "
+                             "coalition is worth more than the grand coalition, e.g. for the additive game v(S) = -|S|)")
                 continue
         if w.col == "LB":
             _check_lb(ob, comp, w, is_sam)
@@ -631,6 +644,10 @@ def _check_ub(ob: _Ob, comp: Computer, w: Write, is_sam: bool) -> None:
                 ob.check("B7s", {"C01", "C02", "C04"}, T.known is True, where, fn,
                          f"minuend is the value of KNOWN supersets: {T.show()}", "ub-known-filter",
                          "the lower bound of an unknown superset used as its value yields a number below admissible v(S)")
+                ob.check("B7s", {"C03", "C08"}, minu[0] == "LB" or T.known is True, where, fn,
+                         f"upper/value columns are read at KNOWN rows only ({minu[0]} over {T.show()})", "ub-stale-read",
+                         "the upper bound of an unknown coalition is whatever the previous computation (or a bulk reset) left there until this pass has rewritten it: "
+                         "reading it makes the result depend on the history, not on the current knowledge")
                 ob.check("B7s", {"C01", "C02", "C04"}, T.classes <= {PSUPER, SELF}, where, fn,
                          f"T ranges over supersets of c: {T.show()}", "ub-supersets",
                          "v(T) - LB(T\\c) bounds v(c) only for T containing c")
@@ -671,6 +688,9 @@ def _check_ub(ob: _Ob, comp: Computer, w: Write, is_sam: bool) -> None:
                 ob.check("B11c", {"C04", "C07"}, S.known is True, where, fn,
                          f"sub-coalition values are known-filtered: {S.show()}", "sam-sub-known",
                          "an unfiltered get_known_values() contains NaN; a bound of an unknown sub-coalition is not an upper bound")
+                ob.check("B7s", {"C03", "C08"}, body[0] == "LB" or S.known is True, where, fn,
+                         f"upper/value columns are read at KNOWN rows only ({body[0]} over {S.show()})", "ub-stale-read",
+                         "the upper bound of an unknown sub-coalition is a leftover of the previous computation until this pass has rewritten it")
                 ob.check("B11c", {"C04", "C07"}, S.classes <= {PSUB, EMPTY} and S.classes >= {PSUB} and not S.restricted, where, fn,
                          f"all known proper sub-coalitions are candidates: {S.show()}", "sam-sub-set",
                          "for a non-increasing game only sub-coalitions bound v(c) from above; all of them must be used")
